@@ -406,6 +406,10 @@ int janet_verify(JanetFuncDef *def) {
 
     if (def->bytecode_length == 0) return 1;
 
+    /* Registers are 16 bit. Also keeps arity + vargs and the frame size computed from slotcount from overflowing. */
+    if (sc < 0 || sc > 0x10000) return 2;
+    if (def->arity < 0 || def->arity > sc) return 2;
+
     if (maxslot > sc) return 2;
 
     /* Verify each instruction */
